@@ -265,6 +265,30 @@ theorem C33_load_first_model (S : Script) (R : Raises) (ms : List (MM × Val)) (
       ∀ j, j < k → ∃ mj r, ms[j]? = some mj ∧ walkE mj.1 S R mj.2 mj.2.cls = .ok r :=
   loadE_error S R ms k f h
 
+/-- **The error of a failing load, in terms of the texts.** With several models
+(imported files) the error carries the file name of *the model that contains the
+object the failing call was made on*, line / column of that object's start in
+*that model's* text, and its length. -/
+theorem C33_load_fill_text (S : Script) (R : Raises) (srcs : List Src) (wrapped : Nat → Bool)
+    (raisedOf : Nat → Nat → Raised) (ms : List (MM × Val)) (k : Nat) (f : Fail) (src : Src)
+    (h : loadE S R ms = .error (k, f)) (hsrc : srcs[k]? = some src)
+    (hspan : (src.span f.call.id).1 ≤ src.text.length)
+    (hr : raisedOf f.call.rule f.call.id = .textx ErrLoc.empty ∨
+          (wrapped f.call.rule = true ∧ raisedOf f.call.rule f.call.id = .other)) :
+    loadErr S R srcs wrapped raisedOf ms =
+      some (.textx (expectedText .obj src.file src.text (src.span f.call.id).1 (src.span f.call.id).2)) ∧
+    ∃ mv, ms[k]? = some mv ∧ f.call.id ∈ oids mv.2 := by
+  constructor
+  · unfold loadErr procError
+    rw [h]
+    simp only [hsrc]
+    rcases hr with hr | ⟨hw, hr⟩
+    · rw [hr, C33_fill_text .obj _ _ _ _ _ hspan]
+    · rw [hr, hw, C33_wrap_text .obj _ _ _ _ hspan]
+  · obtain ⟨mv, hm, hw, _⟩ := loadE_error S R ms k f h
+    obtain ⟨post, h1, _, _⟩ := C33_walk_cut mv.1 S R mv.2 mv.2.cls f hw
+    exact ⟨mv, hm, walk_ids mv.1 S mv.2 mv.2.cls f.call (by rw [h1]; simp)⟩
+
 /-! non-vacuity -/
 example : outcome .obj ⟨some 1, 3, 4, 18⟩ true .other = .textx ⟨some 1, some 3, some 4, some 18⟩ := by decide
 example : outcome .mtch ⟨none, 3, 16, 4⟩ false (.textx ⟨none, none, some 5, none⟩) =
@@ -302,5 +326,10 @@ example : walkErr exRM (fun _ _ => .none) (fun r i => r == 1 && i == 11)
 example : (match loadE (fun _ _ => .none) (fun r i => r == 3 && i == 13) [(exRM, .obj 1 0 .nil), (exRM, exRV)] with
     | .error kf => some (kf.1, kf.2.call.key)
     | .ok _ => none) = some (1, (3, 13)) := by decide
+
+example : loadErr (fun _ _ => .none) (fun r i => r == 3 && i == 13)
+    [⟨some 1, "m".toList, fun _ => (0, 1)⟩, ⟨some 2, "m a b\n b".toList, fun i => if i = 13 then (7, 8) else (0, 0)⟩]
+    (fun _ => false) (fun _ _ => .textx ErrLoc.empty) [(exRM, .obj 1 0 .nil), (exRM, exRV)] =
+    some (.textx ⟨some 2, some 2, some 2, some 1⟩) := by decide
 
 end Proc
